@@ -64,6 +64,7 @@ class Exec(EvalMixin, CallMixin):
         self.cur_call = None
         self.name_counts = {}
         self.abstracted = []
+        self.ghost_sites_hit = set()
 
     # ------------------------------------------------------------ obligations
     def oblige(self, name, st, goal, line=None, kind="vc"):
@@ -168,6 +169,9 @@ class Exec(EvalMixin, CallMixin):
         if con.get("ghost_entry"):
             self.run_ghost(con["ghost_entry"], st)
         results = self.block(body, st)
+        for anchor in (con.get("ghost_after") or {}):
+            if anchor not in self.ghost_sites_hit:
+                raise OutOfSubset("ghost anchor statement not found in the code: %r" % anchor)
         for s, flow in results:
             if flow != "next":
                 raise OutOfSubset("break/continue outside loop")
@@ -256,7 +260,16 @@ class Exec(EvalMixin, CallMixin):
         m = getattr(self, "st_" + type(node).__name__, None)
         if m is None:
             raise OutOfSubset("statement %s at line %s" % (type(node).__name__, node.lineno))
-        return m(node, st)
+        res = m(node, st)
+        ga = self.con.get("ghost_after")
+        if ga and not isinstance(node, (ast.For, ast.While, ast.If)):
+            code = ga.get(ast.unparse(node))
+            if code:
+                self.ghost_sites_hit.add(ast.unparse(node))
+                for s2, flow in res:
+                    if flow == "next":
+                        self.run_ghost(code, s2)
+        return res
 
     def st_Pass(self, node, st):
         return [(st, "next")]
